@@ -1388,6 +1388,42 @@ TAG_SPEC = {
 }
 
 
+def constructor_arguments(repo, run, rule):
+    """every registered tag constructor hands PyYAML's own (loader, node) pair on to _make_node in that order, and returns the node
+    that _make_node built (a constructor that returns nothing makes the tagged value None)"""
+    from . import tagtable
+    table = tagtable.constructors(repo)
+    n = 0
+    seen = set()
+    for tag, e in sorted(table.items()):
+        if e.make is None or id(e.fi) in seen:
+            continue
+        seen.add(id(e.fi))
+        ps = e.fi.params()
+        want = (ps[0], ps[-1]) if len(ps) >= 2 else None
+        mk = e.make_event
+        got = tuple(a.text for a in mk.args[:2])
+        if len(got) < 2:
+            got = got + tuple(mk.kw[k].text if k in mk.kw else None for k in ('loader', 'node')[len(got):])
+        n += 1
+        if want is None or got != want:
+            run.violation(rule, e.fi, '%s -> %s' % (tag, unparse_(e.make)), 'the constructor of %s passes (%s) as (loader, node) to _make_node; PyYAML hands it (%s)' % (tag, ', '.join(map(str, got)), ', '.join(ps)), node=e.make)
+            continue
+        bad = None
+        for p_ in tr.paths_of(repo, e.fi, no_inline={'_make_node', 'make_node', '_decode_metadata'}, follow_exceptions=False):
+            if p_.status != 'return':
+                continue
+            made = [ev for ev in p_.events if ev.kind == 'call' and ev.callee in ('_make_node', 'make_node')]
+            if made and (p_.ret is None or not (isinstance(p_.ret.ast, ast.Call) and unparse_(p_.ret.ast.func) in ('_make_node', 'make_node'))):
+                bad = 'a path of the constructor of %s builds the node and returns %s' % (tag, p_.ret.text[:40] if p_.ret is not None else 'nothing')
+        if bad:
+            run.violation(rule, e.fi, '%s -> %s' % (tag, unparse_(e.make)), bad + ': the tagged value becomes that instead of the node', node=e.make)
+        else:
+            run.ok(rule, (e.fi.file, e.make.lineno, e.fi.qualname), '%s: _make_node(%s) returned' % (tag, ', '.join(got)))
+    if n < 25:
+        raise AnalysisError('%s: only %d constructors with a _make_node call found' % (rule, n))
+
+
 def tag_spec(repo, run, rule, tags):
     """the constructor registered for each of the given tags builds the node class the tag stands for, with the documented data
     handling (which argument receives the YAML value, whether scalars are parsed, whether a mapping is the data or the arguments) - and
